@@ -58,11 +58,28 @@ def consts(enc, **kw):
 
 # ---------------------------------------------------------------- real code drivers
 
+_OPS = {}
+_USE = [0]
+
+
+def _op(kind, enc, inc, make):
+    """Rx operators are factories: subscribing the same operator object again must start
+    from a fresh codec.  Two executions out of three reuse an operator object that already
+    served earlier (possibly truncated) streams."""
+    _USE[0] += 1
+    if _USE[0] % 3 == 0:
+        return make()
+    key = (kind, enc, inc)
+    if key not in _OPS:
+        _OPS[key] = make()
+    return _OPS[key]
+
+
 def run_encode(enc, strings, inc):
     """Push the strings through the real encode(); return emitted items and how it ended."""
     import rx
     import rxsci.data.codec as codec
-    op = codec.encode(enc) if inc is None else codec.encode(enc, incremental=inc)
+    op = _op('enc', enc, inc, lambda: codec.encode(enc) if inc is None else codec.encode(enc, incremental=inc))
     out = []
     state = {'ended': 'open'}
 
@@ -84,7 +101,7 @@ def run_decode(enc, chunks, inc):
     emissions at completion and how the stream ended."""
     from rx.subject import Subject
     import rxsci.data.codec as codec
-    op = codec.decode(enc) if inc is None else codec.decode(enc, incremental=inc)
+    op = _op('dec', enc, inc, lambda: codec.decode(enc) if inc is None else codec.decode(enc, incremental=inc))
     subj = Subject()
     cur = []
     state = {'ended': 'open'}
